@@ -111,6 +111,9 @@ def build_threads(caps=(1, 2, 8)):
     return out
 
 
+THREADS_TIMEOUT = 90
+
+
 def run_threads(bins, configs, jobs=4):
     """configs: [(cap, producers, per_producer, seed, mutex)]; returns list of dicts
     {cmd, line, races, mismatch, rc, stderr}.  Few jobs at a time: the point is contention inside
@@ -118,10 +121,24 @@ def run_threads(bins, configs, jobs=4):
     from concurrent.futures import ThreadPoolExecutor
     env = dict(os.environ, TSAN_OPTIONS="exitcode=66 halt_on_error=0 report_signal_unsafe=0")
 
+    hung = []
+
     def one(c):
         cap, np_, n, seed, mx = c
         cmd = [bins[cap], str(np_), str(n), str(seed), str(mx)]
-        p = subprocess.run(cmd, stdout=subprocess.PIPE, stderr=subprocess.PIPE, text=True, env=env, timeout=600)
+        if hung:
+            # one run is already stuck: that is the finding; do not wait for the same timeout again and again
+            return {"cmd": "threads%d %d %d %d %d" % (cap, np_, n, seed, mx), "line": "result=skipped (an earlier run hung)",
+                    "races": 0, "mismatch": False, "rc": 0, "stderr": ""}
+        try:
+            p = subprocess.run(cmd, stdout=subprocess.PIPE, stderr=subprocess.PIPE, text=True, env=env, timeout=THREADS_TIMEOUT)
+        except subprocess.TimeoutExpired as ex:
+            # a run that never finishes: the service thread or a producer is stuck (a lock that is never released,
+            # a result code that never comes) - reported as a mismatch, not as a crash of the check
+            hung.append(c)
+            err = ex.stderr.decode("latin1") if isinstance(ex.stderr, bytes) else (ex.stderr or "")
+            return {"cmd": "threads%d %d %d %d %d" % (cap, np_, n, seed, mx), "line": "result=hung (no progress for %d s)" % THREADS_TIMEOUT,
+                    "races": err.count("WARNING: ThreadSanitizer"), "mismatch": True, "rc": -9, "stderr": err[-4000:]}
         line = (p.stdout.strip().splitlines() or [""])[-1]
         return {"cmd": "threads%d %d %d %d %d" % (cap, np_, n, seed, mx), "line": line,
                 "races": p.stderr.count("WARNING: ThreadSanitizer"), "mismatch": "result=ok" not in line,
